@@ -11,7 +11,11 @@ open Monero
 /-! Driver step of C09 / C10 / C11. Model side: the functions of Model/Crypto.lean and Model/SubAddr.lean instantiated with
 `Drv.refOps` (reference curve + Keccak). Spec side: the by-the-book sender `Spec.Sender` instantiated with `refPrims`
 (built directly from `Ed`/`Keccak`, not from `refOps`), scalar formulas written out here, `Spec.Address.text` for addresses.
-Scalars and points travel as 32-byte hex; positions and indices in decimal. -/
+Scalars and points travel as 32-byte hex; positions and indices in decimal.
+NOTE on the `c11_*` arms: `refPrims` is definitionally `specPrims refOps`, so by `C11_keys_are_spec` the model and the spec column are
+provably equal on every accepted input — the model-vs-spec comparison cannot fire there and is NOT independent evidence for C11. The
+discriminating comparisons are Rust vs Lean and Rust vs the dalek formulas written in the harness (`dest_at`, `sub_scalar`,
+`address_text`). -/
 namespace Drv
 namespace C10
 /-- the reference primitives for the specification -/
